@@ -140,6 +140,11 @@ def receiveSparseGo (file : Bytes) : List Region → Bytes → Option Bytes
 def receiveSparse (totalSize : Nat) (regions : List Region) (stdin : Bytes) : Option Bytes :=
   receiveSparseGo (setLen [] totalSize) regions stdin
 
+/-- the same over a destination path that already holds `prior`, opened with `mode`. -/
+def receiveSparseOver (mode : OpenMode) (prior : Option Bytes) (totalSize : Nat) (regions : List Region)
+    (stdin : Bytes) : Option Bytes :=
+  receiveSparseGo (setLen (openOutput mode prior) totalSize) regions stdin
+
 /-- `sy-remote receive-sparse-file <out> --total-size n --regions <json> [--mtime s]`. -/
 def receiveSparseFile (totalSize : Nat) (regionsArg : Bytes) (stdin : Bytes) (mtimeArg : Option Nat) :
     Option RemoteFile :=
@@ -147,6 +152,15 @@ def receiveSparseFile (totalSize : Nat) (regionsArg : Bytes) (stdin : Bytes) (mt
   | none => none
   | some rs =>
     match receiveSparse totalSize rs stdin with
+    | some c => some { content := c, mtimeSec := mtimeArg }
+    | none => none
+
+def receiveSparseFileOver (mode : OpenMode) (prior : Option Bytes) (totalSize : Nat) (regionsArg : Bytes)
+    (stdin : Bytes) (mtimeArg : Option Nat) : Option RemoteFile :=
+  match decodeRegions regionsArg with
+  | none => none
+  | some rs =>
+    match receiveSparseOver mode prior totalSize rs stdin with
     | some c => some { content := c, mtimeSec := mtimeArg }
     | none => none
 
@@ -209,6 +223,10 @@ def isSparseLocal (allocated size : Nat) : Bool :=
 def localSeek (content : Bytes) (regions : List Region) : Bytes :=
   setLen (regions.foldl (fun f r => writeAt f r.offset (slice content r)) []) content.length
 
+/-- `copy_sparse_file` over an existing destination opened with `mode`. -/
+def localSeekOver (mode : OpenMode) (prior : Option Bytes) (content : Bytes) (regions : List Region) : Bytes :=
+  setLen (regions.foldl (fun f r => writeAt f r.offset (slice content r)) (openOutput mode prior)) content.length
+
 /-- `BLOCK_SIZE` of `copy_sparse_file_blocks`. -/
 abbrev LOCAL_BLOCK : Nat := 4096
 
@@ -229,5 +247,9 @@ decreasing_by
 /-- `copy_sparse_file_blocks`: `set_len(file_size)` first, then the block loop. -/
 def localBlocks (content : Bytes) : Bytes :=
   blocksGo LOCAL_BLOCK (setLen [] content.length) 0 content
+
+/-- `copy_sparse_file_blocks` over an existing destination opened with `mode`. -/
+def localBlocksOver (mode : OpenMode) (prior : Option Bytes) (content : Bytes) : Bytes :=
+  blocksGo LOCAL_BLOCK (setLen (openOutput mode prior) content.length) 0 content
 
 end SyModel.Compress
